@@ -1289,9 +1289,16 @@ class Fillna(Elemwise):
 
 
 class Replace(Elemwise):
-    _projection_passthrough = True
     _parameters = ["frame", "to_replace", "value", "regex"]
     _defaults = {"to_replace": None, "value": no_default, "regex": False}
+
+    @property
+    def _projection_passthrough(self):
+        # dict-like arguments can be keyed by columns of the frame, which
+        # must not be pruned then (and are invalid for a Series)
+        return not isinstance(self.operand("to_replace"), dict) and not isinstance(
+            self.operand("value"), dict
+        )
     _keyword_only = ["value", "regex"]
     operation = M.replace
 
